@@ -9,7 +9,11 @@ chk("C01", "exploration", "property-based testing (Hypothesis): generated handle
     "Generated handler programs (handlers that post, add, remove and replace handlers, with priorities, conditions, "
     "registered kwargs, relay/boolean results) are executed on the real EventManager from five posting contexts; the "
     "recorded log is checked for exactly-once delivery to required handlers, priority order, kwargs precedence, no "
-    "nesting/interleaving, depth-first order and exactly-once, subtree-complete callbacks. Search, not proof.",
+    "nesting/interleaving, depth-first order and exactly-once, subtree-complete callbacks. The programs also create "
+    "wait_for_event/wait_for_any_event futures (resolve exactly once, with the kwargs and event name of the first dispatch "
+    "of one of their events that began after the registration) and post_async/post_relay_async futures (resolve exactly "
+    "once, not before every handler of the event's subtree has run - observed synchronously at every handler start). "
+    "Search, not proof.",
     "Handlers never raise; <= 40 posts and <= 30 live registrations per case; queue events are C02's.",
     "DESIGN.md §4 C01, appendix A.1")
 chk("C13", "exploration", "property-based testing (Hypothesis): operation histories vs. online reference models on a jittered virtual clock",
@@ -35,6 +39,7 @@ chk("C04", "exploration", "property-based testing (Hypothesis): generated ball h
     "while that device's own eject is unconfirmed; sub-check 'game' runs the same machines with the game mode, a "
     "generated ball save and a generated multiball and only player/physics operations (start button, drains, lock "
     "An optional VUK (1-2 switches) sits between launcher and playfield (trough -> launcher -> VUK -> playfield). "
+    "An entrance-counted lock may have two entrance lanes and an ignore window: balls rattle on their lane's switch inside the window and two balls enter on different lanes 0.2 s apart. "
     "Further topology options: a jam switch that must not count as a slot, a trough one slot short of the ball count (the last ball waits in the outhole), a lock that is a VUK to an upper playfield with a transfer switch back (two playfields). "
     "shots, plunges, multiball start/add-a-ball, early save). Search over a documented physical envelope, not proof.",
     "Balls are never created/destroyed, clean switches, >= 400 ms between two balls on one entrance switch, late "
@@ -61,8 +66,11 @@ chk("C03", "exploration", "property-based testing (Hypothesis): generated switch
     "once per real change, at change+hold iff the state was held, mid-interval registrations at the original deadline, "
     "Configured events with a hold time (event|ms, with and without unit) are modelled as implicit timed handlers. "
     "Switches are also muted and unmuted. "
-    "never after removal) and checks states and is_active/is_inactive answers. Search, not proof.",
-    "ignore_window_ms = 0; a muted switch follows the hardware, drops pending hold-time entries and calls nobody; an operation exactly at a deadline may land on either side.",
+    "never after removal) and checks states and is_active/is_inactive answers. Sub-check window: NO and NC switches with "
+    "ignore_window_ms get generated raw reports; their configured and automatic events must follow the documented rule "
+    "(events of the change that opens a window, nothing inside it, the events of the other state once at its end if the "
+    "switch settled there) and the logical state must mirror the last report. Search, not proof.",
+    "timeline: ignore_window_ms = 0; a muted switch follows the hardware, drops pending hold-time entries and calls nobody; an operation exactly at a deadline may land on either side.",
     "DESIGN.md §4 C03")
 chk("C16", "exploration", "property-based testing (Hypothesis): differential evaluation against CPython's operators + subscription histories; plus coverage-guided fuzzing (atheris/libFuzzer driving the same generators and oracles)",
     "Generated expression trees over the supported grammar are rendered and evaluated by Raw/Int/Float/Bool/String "
@@ -70,8 +78,12 @@ chk("C16", "exploration", "property-based testing (Hypothesis): differential eva
     "unspecified outcomes); generated histories of machine-variable, setting, player-variable and device-attribute "
     "changes check that a subscribed template's future completes after every change of something its taken path read "
     "A setting stored under a differently named machine variable and a monitored device attribute under an alias that starts as None (achievement group selected_member) are part of the subscription histories. "
-    "and that re-evaluation equals the reference. Search, not proof.",
-    "Bounded exponents/repeat counts; errors other than TypeError/missing name leave the outcome open; None reports the default.",
+    "and that re-evaluation equals the reference. Machine and player variables also take str/float (machine: None) values so "
+    "that type-incompatible operands occur in subscribed templates. Sub-check devattr: long-lived subscribers of per-player "
+    "device attributes (state machine state, persisted counter value/enabled, shot state, achievement state, achievement "
+    "group enabled, timer ticks) across drains, next balls, next players and mode stop/start: whenever a fresh evaluation "
+    "differs from what the subscriber was last told, its future must have fired. Search, not proof.",
+    "Player variables are int/float/str (None posts no player event by design); while a mode is not running its devices' attributes have no value (not audited). Bounded exponents/repeat counts; errors other than TypeError/missing name leave the outcome open; None reports the default.",
     "DESIGN.md §4 C16, appendix A.5")
 chk("C18", "exploration", "property-based testing (Hypothesis): generated block configurations and event histories vs. a reference state machine (set of possible states)",
     "A generated counter, accrual or sequence (system-wide or in a mode) is driven by generated histories of hit/step, "
@@ -88,7 +100,8 @@ chk("C20", "exploration", "property-based testing (Hypothesis): generated pricin
     "the real credits mode with a faked game; after every operation the balance must equal a Fraction-based reference "
     "(greedy tier bonuses per pricing session, cap, expiry), stay within [0, max], a start/add must be accepted iff a "
     "full price is available and deduct exactly it, credits_value must render the balance and the earnings audits must "
-    "equal the coins accepted. Search, not proof.",
+    "equal the coins accepted. One machine in eight has no coin or service switch at all (credits only from events). "
+    "Search, not proof.",
     "Configs representable in whole credit units only; expiry instants never coincide with operations; presses >= 100 ms apart.",
     "DESIGN.md §4 C20, appendix A.4")
 chk("C12", "exploration", "property-based testing (Hypothesis): generated section sources over the enumerated config_spec vs. a validity predicate per validator kind; plus coverage-guided fuzzing (atheris/libFuzzer driving the same generators and oracles)",
@@ -197,6 +210,7 @@ chk("C17", "exploration", "property-based testing (Hypothesis): generated shows 
     "scheduled time T0 + sum(durations)/speed within the lateness bound for every loop (no drift), in the model's step "
     "order; played/looped/completed/stopped events once each at the model's moments; after stopping, no light stack "
     "A machine-wide default_show_sync_ms and shows with an explicit sync_ms of 0 are generated. "
+    "show_player entries of a mode with priority 100 are played repeatedly (also across mode stop/start): every instance must run at entry priority + mode priority. "
     "entry, coil or running instance of the show remains. Search, not proof.",
     "Lateness <= 4 ms; requests closer than 2J to a step instant are skipped; one live instance per show so markers can be attributed.",
     "DESIGN.md §4 C17")
